@@ -845,6 +845,11 @@ def analyze(ctx, want):
                 if t["k"] == "call":
                     n = M.call_name(t)
                     if not (n.startswith(M.CRATE_ROOTS) or (n.startswith("<") and n[1:].startswith(M.CRATE_ROOTS))):
+                        # std plumbing is not compared — except what drops, reorders or shortens elements (a filter, a sort, a
+                        # truncate in ONE of the two constructors makes them compile different things)
+                        from . import adaptors as _ad
+                        if re.search(_ad.RX, n) or any(re.search(rx_, n) for _k, rx_ in _ad.LIST_OPS):
+                            seq.append("std:" + re.sub(r"::<.*$", "", M.short_name(n)))
                         continue
                     if re.search(r"clone::Clone>::clone$", n):
                         continue
